@@ -1,6 +1,6 @@
 (* Property C20 — the result-cache index returns exactly the stored entries matching a lookup.
    Only statements, `exact`, and Print Assumptions live here. *)
-From EQL Require Import Base IndexedCache IndexedCache_Facts IndexedCache_Sound.
+From EQL Require Import Base IndexedCache IndexedCache_Facts IndexedCache_Sound IndexedCache_Perm.
 From Coq Require Import Permutation.
 
 (* Coverage: after ANY well-formed history (inserts under non-empty bindings over the key list,
@@ -30,52 +30,38 @@ Theorem C20_clear : forall c a,
 Proof. exact clear_empties. Qed.
 Print Assumptions C20_clear.
 
-(* Retrieval.  FULL STATEMENT (what the property demands):
-     forall ks ops l, forallb (op_ok ks) ops = true ->
-       Permutation (ic_retrieve (impl (state_after ks ops)) l)
-                   (spec_retrieve ks (spec (state_after ks ops)) l).
-   It is false of the faithful model (and of the code — known finding C20-wildcard-preference):
-   witness keys [1;2], insert {1:0}->7, insert {2:0}->8, retrieve {} returns one entry, not two. *)
-Theorem C20_retrieve_refuted :
-  exists ks ops l,
-    forallb (op_ok ks) ops = true /\
-    let s := state_after ks ops in
-    ~ Permutation (ic_retrieve (impl s) l) (spec_retrieve ks (spec s) l).
-Proof. exact retrieve_complete_refuted. Qed.
-Print Assumptions C20_retrieve_refuted.
+(* Retrieval, IN FULL: after ANY well-formed history, for every key list (at least one key) and every lookup - full, partial or
+   empty -, retrieval returns a permutation of the reference answer: each stored entry whose binding agrees with the lookup on
+   every key they share, all of them, each once, paired with that entry's binding merged into the lookup, and nothing else.
+   (At the pinned commit this statement was REFUTED - theorem C20_retrieve_refuted of earlier runs, known finding
+   C20-wildcard-preference: a level holding both the wildcard and a concrete key lost one of the two.  The defect was repaired in
+   /repo; the model follows the repaired code line by line and is compared with it on every run.) *)
+Theorem C20_retrieve : forall ks ops l, ks <> [] -> forallb (op_ok ks) ops = true ->
+  Permutation (ic_retrieve (impl (state_after ks ops)) l) (spec_retrieve ks (spec (state_after ks ops)) l).
+Proof. exact retrieve_exact. Qed.
+Print Assumptions C20_retrieve.
 
-(* The SOUND half of retrieval holds, for every key list (at least one key), every well-formed history and every lookup:
-   whatever retrieve returns is the output currently stored for an entry of the reference store whose binding is compatible
-   with the lookup - retrieval never invents an entry, never returns an overwritten output, never returns an entry that
-   contradicts the lookup.  With C20_retrieve_refuted this fixes the direction of the known finding: entries are LOST only. *)
+(* its two halves, as they are used elsewhere (C05_indexed_full_rows) *)
 Theorem C20_retrieve_sound : forall ks ops l r o, ks <> [] -> forallb (op_ok ks) ops = true ->
   In (r, o) (ic_retrieve (impl (state_after ks ops)) l) ->
   exists b, In (b, o) (spec (state_after ks ops)) /\ compatible ks b l = true.
 Proof. exact retrieve_sound. Qed.
 Print Assumptions C20_retrieve_sound.
 
-Example C20_retrieve_sound_nonvacuous :
-  let ks := [1; 2] in let ops := [OIns [(1, 0)] 7; OIns [(2, 0)] 8; OIns [(1, 0)] 9] in
-  forallb (op_ok ks) ops = true /\ map snd (ic_retrieve (impl (state_after ks ops)) [(1, 0)]) = [9].
-Proof. split; vm_compute; reflexivity. Qed.
-
-(* ... and retrieval is COMPLETE whenever no level of the index holds both the wildcard and a concrete key: every stored entry
-   compatible with the lookup is returned.  So the known finding needs a MIXED level - exactly what the run-time signature of
-   the finding observes (a retrieval that visits a level holding All and a concrete key). *)
-Theorem C20_retrieve_complete_unmixed : forall ks ops l b o, ks <> [] -> forallb (op_ok ks) ops = true ->
-  Unmixed (root (impl (state_after ks ops))) ->
+Theorem C20_retrieve_complete : forall ks ops l b o, ks <> [] -> forallb (op_ok ks) ops = true ->
   In (b, o) (spec (state_after ks ops)) -> compatible ks b l = true ->
   exists r, In (r, o) (ic_retrieve (impl (state_after ks ops)) l).
-Proof. exact retrieve_complete_unmixed. Qed.
-Print Assumptions C20_retrieve_complete_unmixed.
+Proof. exact retrieve_complete. Qed.
+Print Assumptions C20_retrieve_complete.
 
-(* non-vacuity: full bindings only (what the unit tests reach): no mixed level, a partial lookup returns both compatible entries *)
-Example C20_unmixed_nonvacuous :
-  let ks := [1; 2] in let ops := [OIns [(1, 0); (2, 0)] 7; OIns [(1, 0); (2, 1)] 8; OIns [(1, 1); (2, 0)] 9] in
-  forallb (op_ok ks) ops = true /\ map snd (ic_retrieve (impl (state_after ks ops)) [(1, 0)]) = [7; 8] /\
-  Unmixed (root (impl (state_after ks ops))).
-Proof.
-  cbv zeta. split; [reflexivity|]. split; [vm_compute; reflexivity|]. vm_compute.
-  constructor; [right; reflexivity|]. intros c ch [H|[H|[]]]; injection H as _ <-;
-    (constructor; [right; reflexivity | intros c' ch' H'; cbn in H'; intuition discriminate]).
-Qed.
+(* non-vacuity: the former counter-example (wildcard and concrete key on one level; the empty lookup) and a history with an
+   overwrite, a partial lookup and mixed levels *)
+Example C20_retrieve_nonvacuous :
+  let ks := [1; 2] in
+  let ops := [OIns [(1, 0)] 7; OIns [(2, 0)] 8; OIns [(1, 0); (2, 1)] 5; OIns [(1, 0)] 9] in
+  forallb (op_ok ks) ops = true /\
+  map snd (ic_retrieve (impl (state_after ks ops)) []) = [9; 5; 8] /\
+  map snd (ic_retrieve (impl (state_after ks ops)) [(1, 0)]) = [9; 5; 8] /\
+  map snd (ic_retrieve (impl (state_after ks ops)) [(1, 0); (2, 0)]) = [9; 8] /\
+  map snd (ic_retrieve (impl (state_after ks ops)) [(1, 1)]) = [8].
+Proof. cbv zeta. split; [reflexivity|]. repeat split; vm_compute; reflexivity. Qed.
